@@ -82,13 +82,69 @@ def _resort(s):
     return " + ".join(sorted(parts))
 
 
+WALKS = [None]   # the array walks of the function whose signature is being built (see _walks)
+
+
+def _walks(f):
+    """loops that visit the elements of an array one by one, in pointer form (p = base; p < base + n; p++) or index form (i = 0; i < n; i++ with base[i]):
+    {"exit": id of the exit comparison, "count": canonical text of n, "ptr": name of the running pointer or None, "idx": name of the index or None, "base": text}"""
+    out = []
+    for L in f.loops():
+        hdr = f.bmap[L["header"]]
+        t = hdr.term
+        c = f.inst(t.ops[0]) if (t is not None and t.op == "br" and len(t.ops) == 3) else None
+        if c is None or c.op != "icmp" or c.d["pred"] not in ("ult", "slt", "ne"):
+            continue
+        ph = f.inst(strip_int_casts(f, c.ops[0]))
+        if ph is None or ph.op != "phi" or ph.block is not hdr:
+            continue
+        inits = [v for (v, pb) in ph.d["incoming"] if pb not in L["body"]]
+        steps = [v for (v, pb) in ph.d["incoming"] if pb in L["body"]]
+        if len(inits) != 1 or len(steps) != 1:
+            continue
+        expr.NAMED[0] = True
+        try:
+            name = repr(expr.lin(f, {"k": "i", "v": ph.id}, 0, 0))
+            if ph.ty.endswith("*"):
+                st = f.inst(strip_casts(f, steps[0]))
+                if st is None or st.op != "getelementptr" or len(st.d["path"]) != 1 or "ptr" not in st.d["path"][0] or const_int(st.d["path"][0]["ptr"]) != 1 \
+                        or strip_casts(f, st.d["base"]).get("v") != ph.id:
+                    continue
+                es = st.d["path"][0].get("eltsize") or 1
+                base = expr.lin(f, inits[0], 0, 3)
+                cnt = expr.lin(f, c.ops[1], 0, 3).add(base, -1).div(es)
+                if cnt is None:
+                    continue
+                out.append({"exit": c.id, "count": _canon_atoms(repr(cnt)), "ptr": name, "idx": None, "base": _canon_atoms(repr(base))})
+            else:
+                if const_int(inits[0]) != 0:
+                    continue
+                stl = expr.lin(f, steps[0], 0, 0)
+                if stl.c != 1 or len(stl.t) != 1 or list(stl.t.values()) != [1]:
+                    continue
+                out.append({"exit": c.id, "count": _canon_atoms(repr(expr.lin(f, c.ops[1], 0, 3))), "ptr": None, "idx": name, "base": None})
+        finally:
+            expr.NAMED[0] = False
+    return out
+
+
+def _walk_canon(s):
+    """element of a walked array, whatever the form of the walk:  L[(p)] / L[(base)[i]]  ->  L[(base)[@]]"""
+    for w in (WALKS[0] or []):
+        if w["ptr"]:
+            s = re.sub(r"L\[\(%s\)\]" % re.escape(w["ptr"]), "L[(%s)[@]]" % w["base"], s)
+        elif w["idx"]:
+            s = re.sub(r"\[%s\]" % re.escape(w["idx"]), "[@]", s)
+    return s
+
+
 def _cls(f, op):
     expr.NAMED[0] = True
     try:
         l = expr.lin(f, op, 0, 3)
     finally:
         expr.NAMED[0] = False
-    s = _canon_atoms(repr(l))
+    s = _walk_canon(_canon_atoms(repr(l)))
     for k, v in GETTERS.items():
         s = s.replace(k, v)
     s = re.sub(r"#\d+", "#", s)
@@ -150,6 +206,10 @@ def _ctl(f, inst):
     from .r5 import _controlling_conditions
     out = []
     for (c, pol) in _controlling_conditions(f, inst.block.name):
+        wk = [w for w in (WALKS[0] or []) if w["exit"] == c.id]
+        if wk and pol:
+            out.append("%s ugt @" % wk[0]["count"])      # inside the walk over `count' elements
+            continue
         a, b = _cls(f, c.ops[0]), _cls(f, c.ops[1])
         pr = c.d["pred"]
         if not pol:
@@ -193,6 +253,15 @@ def _init_loop_events(f):
 
 def signature(p, f, with_control=True):
     sig = Counter()
+    saved_walks = WALKS[0]
+    WALKS[0] = _walks(f)
+    try:
+        return _signature(p, f, with_control, sig)
+    finally:
+        WALKS[0] = saved_walks
+
+
+def _signature(p, f, with_control, sig):
     loop_ev, skip = _init_loop_events(f)
     for e in loop_ev:
         sig[e] += 1
@@ -228,9 +297,13 @@ def signature(p, f, with_control=True):
                     vc = "value"
             sig[("store", tgt, vc) + ((_ctl(f, i),) if with_control else ())] += 1
         elif i.op == "icmp":
+            wk = [w for w in (WALKS[0] or []) if w["exit"] == i.id]
+            if wk:
+                sig[("cmp", "ult", "@", wk[0]["count"])] += 1
+                continue
             if i.d["pred"] in ("eq", "ne") and const_int(i.ops[1]) == 0:
                 x_ = f.inst(strip_int_casts(f, i.ops[0]))
-                if x_ is not None and x_.ty == "i1":
+                if x_ is not None and (x_.ty == "i1" or (x_.op == "phi" and all(const_int(v_) is not None for (v_, _) in x_.d["incoming"]))):
                     continue      # a truth value kept in an integer (a flag local, an inlined predicate) and tested again: no new comparison
             a, b = _cls(f, i.ops[0]), _cls(f, i.ops[1])
             pr = i.d["pred"]
@@ -261,6 +334,11 @@ def signature(p, f, with_control=True):
                     sig[e] += k
                 continue
             sig[("call", n)] += 1
+    # a bare comparison counts once: how often a test is spelled (loop condition and the same test after the loop, or a flag instead) is a matter of form;
+    # what runs under which outcome is in the control conditions of the stores and in the calls
+    for e in list(sig):
+        if e[0] == "cmp":
+            sig[e] = 1
     return _merge_arms(sig) if with_control else sig
 
 
